@@ -1,6 +1,6 @@
 ------------------------------- MODULE MC_C17 -------------------------------
 EXTENDS Faidx, Json
 Emit == last.op = "open" =>
-          PrintT(ToJson([recs |-> recs, finalnl |-> FinalNL, flen |-> Len(File(recs)),
+          PrintT(ToJson([recs |-> recs, finalnl |-> FinalNL, blankend |-> BlankEnd, flen |-> Len(File(recs)),
                          index |-> [r \in DOMAIN recs |-> IndexRow(recs, r)]]))
 ==============================================================================
